@@ -7,7 +7,7 @@ from .common import (Exec, gen_history, Violation, weighted, random_mix, Fingerp
 ID = "C01"
 LEVEL = "exploration"
 TECHNIQUE = "deterministic simulation: seeded step scheduler over the real engine + mock clouds, virtual clock, split event intake"
-RULE = ("each run = (provider flavour pair - ids stable or paths, event filter on/off, case-sensitive, case-insensitive and mixed-case pairs (there with case-only renames in the mix and names differing only in case never generated as siblings) -, two-sided user history of 1-7 ops over a tiny name alphabet, schedule style "
+RULE = ("each run = (provider flavour pair - ids stable or paths, event filter on/off, case-sensitive, case-insensitive and mixed-case pairs (there with case-only renames in the mix and names differing only in case never generated as siblings) -, two-sided user history of 1-7 ops over a tiny name alphabet (incl. name swaps: two files exchange names through a temporary name), schedule style "
         "eager|batched|bursty|split-intake, explicit engine-step interleaving) drawn from H(seed,index); executed on the "
         "real CloudSync/SyncManager/EventManager/SyncState with two MockProviders under a virtual clock; then faults off "
         "and run to quiet. distinct = distinct (history shape with names abstracted, schedule string, flavour); "
